@@ -1,0 +1,9 @@
+//go:build verif
+
+package hotspot
+
+// VerifTrafficControllersFor returns the traffic shaping controllers currently in force for
+// res, so that the verification harness can read their statistic caches. Verification builds only.
+func VerifTrafficControllersFor(res string) []TrafficShapingController {
+	return getTrafficControllersFor(res)
+}
